@@ -9,7 +9,7 @@ from engine.symnet import in_space
 from checks import hist, histcheck, common
 
 PROP = "C14"
-QUERIES = ["seeds", "cands"]
+QUERIES = ["seeds", "cands", "sets"]
 CHANGERS = ["succ", "bfs", "dfs", "minp", "min", "aseeds", "target", "block", "scc", "skip", "skiprem", "reclaim", "pickle"]
 FUNCTIONS = ["SuccessionDiagram._expand_one_node (cache reset)", "SuccessionDiagram.skip_to_minimal", "SuccessionDiagram.skip_remaining",
              "expand_minimal_spaces.make_skip_node", "expand_source_blocks (source shortcut, clean blocks)",
@@ -32,6 +32,22 @@ def node_cache_spec(B, dump, nid, prev=None):
     kids = [nodes[e["c"]]["space"] for e in specs.out_edges(dump)[nid]]
     parts = []
     pre = f"node {nid} ({'skip' if nd['skipped'] else 'expanded' if nd['expanded'] else 'stub'}): "
+    states = [x for x in B.states if in_space(x, S)]
+    sets = nd.get("sets_content")
+    if sets is not None:
+        # cached attractor sets: one per cached seed, in order, each the attractor of its seed; sets without seeds
+        # must describe attractors of the node that are outside its successors
+        if seeds is not None:
+            parts.append((pre + f"cached sets correspond one-to-one to the cached seeds ({len(sets)} sets, {len(seeds)} seeds)", B.const(len(sets) == len(seeds))))
+        for i, st in enumerate(sets):
+            st = [tuple(x) for x in st]
+            parts.append((pre + f"cached set {i} is non-empty, inside the node and outside its successors",
+                          B.const(len(st) > 0 and all(in_space(x, S) for x in st) and (nd["skipped"] or not any(in_space(x, k) for x in st for k in kids)))))
+            if st:
+                s0 = tuple(seeds[i]) if seeds is not None and i < len(seeds) else st[0]
+                for y in B.states:
+                    parts.append((pre + f"cached set {i} contains {y} iff {y} is in the attractor of {s0}",
+                                  B.Iff(B.And(B.attr(s0), B.reach(s0, y)), B.const(y in st))))
     if cands is None and seeds is None:
         return parts
     reported_cands = cands if cands is not None else seeds
@@ -134,6 +150,9 @@ def tasks(tier, seed, selftest=False):
             S.append(dict(family="D3", skeleton=("seeds", ch), timebox=8))
         for ch in ("block", "scc"):
             S.append(dict(family="B21", skeleton=("seeds", ch), timebox=8))
+            # source variables: the fast-forward / root source expansion paths
+            S.append(dict(family="S1C2", skeleton=("sets", ch), timebox=10))
+            S.append(dict(family="S1C2", skeleton=("seeds", ch), timebox=10))
     else:
         for ch in ("block", "scc", "min"):
             for fam in ("B22", "CH4", "S2C2"):
@@ -146,6 +165,6 @@ def main(tier, seed, t0, selftest=False):
     return common.finish(PROP, tier, seed, "model_checking", results, t0, selftest=selftest, functions=FUNCTIONS,
                          bounds={"history": "[succ] + query (seeds|cands on a symbolic node) + [reclaim|pickle] + one of " + ",".join(CHANGERS) + " (all parameters symbolic); cache of every node checked after every call",
                                  "families": "U2 time-boxed per skeleton; D3/B21 samples (quick); D3, B22, CH4, S2C2 (thorough)",
-                                 "sets": "attractor *sets* are opaque handles in coarse mode: their staleness is covered through the seeds they are computed from (C12 decides their content)"},
+                                 "sets": "cached attractor sets are enumerated in the dump: one per seed, in order, each equal to the attractor of its seed (their contents are observations of the attractor region, so the comparison is class-valid)"},
                          assumptions=["contract stubs of DESIGN.md §8 validated on every representative",
                                       "skip nodes: sound, duplicate-free, and no cached state inside a successor (what a recomputation can never produce)"])
